@@ -306,7 +306,7 @@ func init() {
 
 	register(&Rule{
 		Name:  "DOCNUMS-SHAPE",
-		Floor: 3,
+		Floor: 2,
 		Doc:   "the per-segment table is make([]uint64, seg.footer.numDocs) of the segment of the current iteration; every path through one iteration of the per-segment loop appends exactly one table, after it was filled (by the fill loop or by mergeStoredAndRemapSegment); every path through one iteration of the per-document loop stores exactly once into table[docNum]: the dropped sentinel on the drops.Contains edge (counter unchanged) or the running counter (incremented exactly once); the counter is threaded 0 → … through all segments",
 		Run: func(c *Ctx, scope string, r *Report) {
 			// ---- per-document loop in mergeStoredAndRemapSegment
@@ -662,7 +662,7 @@ func init() {
 
 	register(&Rule{
 		Name:  "DOCNUMS-PUBLISHED",
-		Floor: 4,
+		Floor: 3,
 		Doc:   "Merger.WriteTo stores result 0 of merge into the field DocumentNumbers returns; merge passes every input segment and the caller's drops unchanged and in order to mergeSegmentBasesWriter; the dropped sentinel folds to math.MaxInt64; computeNewDocCount is numDocs minus drops cardinality summed over all segments and is what the footer records",
 		Run: func(c *Ctx, scope string, r *Report) {
 			wt := c.MustFn("(*Merger).WriteTo")
@@ -714,8 +714,12 @@ func init() {
 				name string
 				idx  int
 			}{{"segments", 0}, {"drops", 1}} {
+				want := paramOfType(mg, map[string]string{"segments": segSliceType, "drops": dropsSliceType}[f.name])
+				if want == nil {
+					want = mg.Params[f.idx]
+				}
 				for _, st := range c.census().fieldStores[fieldKey{mt, f.name}] {
-					if st.fn == mg && st.val == ssa.Value(mg.Params[f.idx]) {
+					if st.fn == mg && st.val == ssa.Value(want) {
 						okIn++
 					}
 				}
@@ -733,15 +737,21 @@ func init() {
 				if site.Parent() != merge {
 					continue
 				}
-				mk, ok := site.Common().Args[0].(*ssa.MakeSlice)
+				mk, ok := argOfType(site.Common(), segSliceType).(*ssa.MakeSlice)
 				if !ok {
 					continue
 				}
 				x, name, ok := lenOrCapOf(mk.Len)
-				if !ok || name != "len" || x != ssa.Value(merge.Params[0]) {
+				var segsParam *ssa.Parameter
+				for _, p := range merge.Params {
+					if strings.HasPrefix(p.Type().String(), "[]") && strings.HasSuffix(p.Type().String(), ".Segment") {
+						segsParam = p
+					}
+				}
+				if !ok || name != "len" || segsParam == nil || x != ssa.Value(segsParam) {
 					continue
 				}
-				if site.Common().Args[1] != ssa.Value(merge.Params[1]) {
+				if dp := paramOfType(merge, dropsSliceType); dp == nil || argOfType(site.Common(), dropsSliceType) != ssa.Value(dp) {
 					continue
 				}
 				// every index assigned in the range loop: store bases[i] with i the range index over segments
@@ -780,7 +790,7 @@ func init() {
 				if st.fn != mw {
 					continue
 				}
-				if call, ok := st.val.(*ssa.Call); ok && call.Call.StaticCallee() == cnd && call.Call.Args[0] == ssa.Value(mw.Params[0]) && call.Call.Args[1] == ssa.Value(mw.Params[1]) {
+				if call, ok := st.val.(*ssa.Call); ok && call.Call.StaticCallee() == cnd && paramOfType(mw, segSliceType) != nil && paramOfType(mw, dropsSliceType) != nil && argOfType(&call.Call, segSliceType) == ssa.Value(paramOfType(mw, segSliceType)) && argOfType(&call.Call, dropsSliceType) == ssa.Value(paramOfType(mw, dropsSliceType)) {
 					okCount = true
 				}
 			}
@@ -843,7 +853,7 @@ func init() {
 
 	register(&Rule{
 		Name:  "STORED-OFFSET-SOURCE",
-		Floor: 3,
+		Floor: 2,
 		Doc:   "every entry of a stored-field offsets index (docStoredOffsets / docNumOffsets) is the chunked document coder's Size() taken immediately before the Add of that document on the same coder (builder, merge re-encode path and merge byte-copy path agree)",
 		Run: func(c *Ctx, scope string, r *Report) {
 			add := c.MustFn("(*chunkedDocumentCoder).Add")
